@@ -47,18 +47,23 @@ impl<'a, T: Read + Seek> QueueReader<'a, T> {
 
     /// Returns the number of complete and available points across all queues.
     pub fn available(&self) -> usize {
-        if self.queues.is_empty() {
-            return 0;
-        }
-
+        // Records with a bit size of zero have no queue entries, see pop_point()
         let mut av = usize::MAX;
-        for q in &self.queues {
+        for (i, q) in self.queues.iter().enumerate() {
+            if self.pc.prototype[i].data_type.bit_size() == 0 {
+                continue;
+            }
             let len = q.len();
             if len < av {
                 av = len;
             }
         }
-        av
+        if av == usize::MAX {
+            // No record with values in the file, there is nothing to count
+            0
+        } else {
+            av
+        }
     }
 
     /// Return values for the next point by popping one value from each queue.
@@ -66,9 +71,24 @@ impl<'a, T: Read + Seek> QueueReader<'a, T> {
     pub fn pop_point(&mut self, output: &mut RawValues) -> Result<()> {
         output.clear();
         for i in 0..self.pc.prototype.len() {
-            let value = self.queues[i]
-                .pop_front()
-                .internal_err("Failed to pop value for next point")?;
+            // Records with a bit size of zero are not stored in the file, they can only have
+            // a single value. Keeping a copy of that value in a queue for every point would
+            // need memory in the order of points in a packet times number of such records.
+            let value = match self.pc.prototype[i].data_type {
+                RecordDataType::Integer { min, .. }
+                    if self.pc.prototype[i].data_type.bit_size() == 0 =>
+                {
+                    RecordValue::Integer(min)
+                }
+                RecordDataType::ScaledInteger { min, .. }
+                    if self.pc.prototype[i].data_type.bit_size() == 0 =>
+                {
+                    RecordValue::ScaledInteger(min)
+                }
+                _ => self.queues[i]
+                    .pop_front()
+                    .internal_err("Failed to pop value for next point")?,
+            };
             output.push(value);
         }
         Ok(())
@@ -162,7 +182,7 @@ impl<'a, T: Read + Seek> QueueReader<'a, T> {
                         "Point clouds where all records have a bit size of zero are not supported",
                     )?
                 }
-                self.parse_byte_streams(min_queue_size)?;
+                self.parse_byte_streams()?;
             }
         };
 
@@ -172,7 +192,7 @@ impl<'a, T: Read + Seek> QueueReader<'a, T> {
     }
 
     /// Extracts raw values from byte streams into queues.
-    fn parse_byte_streams(&mut self, min_queue_size: usize) -> Result<()> {
+    fn parse_byte_streams(&mut self) -> Result<()> {
         for (i, r) in self.pc.prototype.iter().enumerate() {
             match r.data_type {
                 RecordDataType::Single { .. } => {
@@ -183,14 +203,8 @@ impl<'a, T: Read + Seek> QueueReader<'a, T> {
                 }
                 RecordDataType::ScaledInteger { min, max, .. } => {
                     if r.data_type.bit_size() == 0 {
-                        // If the bit size of an record is zero, we don't know how many items to unpack.
-                        // Thats because they are not really unpacked, but instead generated with a predefined value.
-                        // Since this can only happen when min=max we know that min is the expected value.
-                        // We use the supplied minimal size to ensure that we create enough items
-                        // to fill the queue enough to not be the limiting queue.
-                        while self.queues[i].len() < min_queue_size {
-                            self.queues[i].push_back(RecordValue::ScaledInteger(min));
-                        }
+                        // If the bit size of an record is zero there is nothing to unpack.
+                        // This can only happen when min=max, the value is created in pop_point().
                     } else {
                         BitPack::unpack_scaled_ints(
                             &mut self.byte_streams[i],
@@ -203,9 +217,6 @@ impl<'a, T: Read + Seek> QueueReader<'a, T> {
                 RecordDataType::Integer { min, max } => {
                     if r.data_type.bit_size() == 0 {
                         // See comment above for scaled integers!
-                        while self.queues[i].len() < min_queue_size {
-                            self.queues[i].push_back(RecordValue::Integer(min));
-                        }
                     } else {
                         BitPack::unpack_ints(
                             &mut self.byte_streams[i],
